@@ -49,11 +49,11 @@ def gen(t, tier):
     n = t.weighted([(0, 1), (1, 1), (2, 3), (3, 3), (4, 3), (5, 3), (6, 4)])
     sc = {'api': api, 'pool': t.randint(1, 7), 'result_objects': bool(t.choice(2)) if api.startswith('pool.') else False,
           'policy': t.pick([['random'], ['sticky', 0.5], ['sticky', 0.2], ['sticky', 0.05]]),
-          'items': [{'yields': t.randint(0, 3), 'fail': bool(t.chance(0.2))} for _ in range(n)]}
+          'items': [{'yields': t.randint(0, 3), 'fail': bool(t.chance(0.2)), 'none': bool(t.chance(0.15))} for _ in range(n)]}
     if api.startswith('pool.') and t.chance(0.3):
         # the same pool object is used for a second call (after the first one returned or raised)
         m = t.randint(2, 5)
-        sc['second'] = [{'yields': t.randint(0, 3), 'fail': bool(t.chance(0.15))} for _ in range(m)]
+        sc['second'] = [{'yields': t.randint(0, 3), 'fail': bool(t.chance(0.15)), 'none': bool(t.chance(0.15))} for _ in range(m)]
     return sc
 
 
@@ -66,6 +66,10 @@ def shrink(sc):
         if it['yields']:
             c = copy.deepcopy(sc)
             c['items'][i]['yields'] = 0
+            yield c
+        if it.get('none'):
+            c = copy.deepcopy(sc)
+            c['items'][i]['none'] = False
             yield c
         if it['fail'] and sum(1 for x in sc['items'] if x['fail']) > 1:
             c = copy.deepcopy(sc)
@@ -100,7 +104,8 @@ def run(sc, tape):
         items = rounds[r]
         n = len(items)
         state.update({'items': items, 'n': n, 'excs': [ItemError('round %d item %d failed' % (r, i)) for i in range(n)],
-                      'values': [('value', r, i, 1000 + i) for i in range(n)], 'executed': [0] * n, 'finish_order': []})
+                      'values': [None if items[i].get('none') else ('value', r, i, 1000 + i) for i in range(n)],
+                      'executed': [0] * n, 'finish_order': []})
 
     def work(i, tag=None):
         import threading
